@@ -68,6 +68,15 @@ def replay_adverbs(inputs, obl):
         got = k(f"{ops}{l}")
         if not eq(got, acc if ops[1] == '/' else scan):
             problems.append(f"{ops}{l} -> {got!r}")
+    # atom right operand of each-left / each-right: a f:\\b is f(a;b), a f:/b is f(b;a)
+    for prog, want in (('1+:\\2', 3), ('1-:/2', 1), ('1-:\\2', -1), ('[1 2],:\\3', [1, 2, 3]), ('1,:/3', [3, 1])):
+        try:
+            got = k(prog)
+            g = got.tolist() if hasattr(got, 'tolist') else got
+            if g != want:
+                problems.append(f"{prog} -> {g!r}, the reference gives {want!r}")
+        except Exception as e:
+            problems.append(f"{prog} raised {type(e).__name__}: {e} (the reference gives {want!r})")
     # string operands: the verb sees Klong characters; expansions written with character literals
     k2 = KlongInterpreter()
     k2('t::{(#x)-#y};p::{x,y};c::{x}')
